@@ -5,7 +5,8 @@ import tgen
 # name -> (wrapper declarations, wrapped type text, wrapped value text, wrapped pattern text,
 #          wrapped value as a generator value given the inner value's s-expression)
 POSITIONS = ["field", "root", "tuple-elem", "enum-elem", "slice-elem", "set-elem", "map-value", "ok", "err",
-             "nested-field", "tuple-index", "index", "deref", "method", "wildcard-field", "struct-variant-field", "method-value"]
+             "nested-field", "tuple-index", "index", "deref", "method", "wildcard-field", "struct-variant-field", "method-value",
+             "method-then-field", "method-then-index"]
 
 
 # The same sweep one reference level up: the value handed to the pattern is a `&T`.  The comparator is a struct field of type
@@ -83,6 +84,13 @@ def wrap(pos, g, t, v, pat):
         # the method returns the value itself (a temporary), not a reference into the struct
         return ("#[derive(Debug)] struct W { f: %s }\nimpl W { fn get(&self) -> %s { self.f.clone() } }\n#[derive(Debug)] struct W2 { w: W }" % (T, T),
                 "W2", "W2 { w: W { f: %s } }" % E, "W2 { w.get(): %s }" % pat, adt("W2", ["w"], [adt("W", ["f"], [S])]))
+    if pos == "method-then-field":
+        # a projection AFTER a call: `h.id().f` is a place inside the value the call returned a reference to
+        return ("#[derive(Debug)] struct H { f: %s }\nimpl H { fn id(&self) -> &H { self } }\n#[derive(Debug)] struct W2 { h: H }" % T,
+                "W2", "W2 { h: H { f: %s } }" % E, "W2 { h.id().f: %s }" % pat, adt("W2", ["h"], [adt("H", ["f"], [S])]))
+    if pos == "method-then-index":
+        return ("#[derive(Debug)] struct H { xs: Vec<%s> }\nimpl H { fn id(&self) -> &H { self } }\n#[derive(Debug)] struct W2 { h: H }" % T,
+                "W2", "W2 { h: H { xs: vec![%s] } }" % E, "W2 { h.id().xs[0]: %s }" % pat, adt("W2", ["h"], [adt("H", ["xs"], ["(seq %s)" % S])]))
     raise ValueError(pos)
 
 
@@ -94,5 +102,5 @@ POSITION_CLASS = {
     "struct-variant-field": "reference-binding", "wildcard-field": "reference-to-place",
     "ref-field": "reference-binding", "root-borrow": "root-written-as-borrow", "root-borrow-paren": "root-written-as-borrow",
     "root-ref-var": "reference-binding", "tuple-elem-ref": "reference-binding",
-    "nested-field": "place", "tuple-index": "place", "index": "place", "deref": "place", "method": "method-result", "method-value": "temporary",
+    "nested-field": "place", "tuple-index": "place", "index": "place", "deref": "place", "method": "method-result", "method-value": "temporary", "method-then-field": "place", "method-then-index": "place",
 }
